@@ -2210,6 +2210,32 @@ def run_concurrent(res, progs):
                           why="a call returned something else than when run alone")
     res.streams["race-processes"] = res.streams.get("race-processes", 0) + len(progs)
     res.streams["alone"] = res.streams.get("alone", 0) + len(uniq)
+    # the same programs on the PLAIN build of the package (no verif tag: what users compile) - those that need no
+    # scripted source; a data race, crash or result that exists only there is reported with the program as the input
+    import os
+    pp = [p_ for p_ in progs if not any(g[0] == "PRE" for g in p_)]
+    if pp and os.path.exists(os.path.join(common.BUILD, "implrun_race_plain")):
+        for prog, (rows, race, rc, err) in zip(pp, common.run_race(pp, plain=True)):
+            res.evaluations += 1
+            res.count("race-plain-build/goroutines=%d" % len(prog))
+            case = "race " + " || ".join("|".join(g) for g in prog)
+            if race:
+                res.violation(stream="race", case=case[:6000], impl=race, model="", spec="no data race", build="plain (no verif tag)",
+                              why="the race detector reported a data race in the package built without the verif tag")
+                continue
+            if rc == -9:
+                continue
+            if rc != 0 or len(rows) != len(prog):
+                res.violation(stream="race", case=case[:6000], impl="rc=%s %s" % (rc, err[-800:]), model="", spec="all goroutines complete", build="plain (no verif tag)",
+                              why="the concurrent run of the package built without the verif tag did not complete normally")
+                continue
+            for g, row in zip(prog, rows):
+                for op, r in zip(g, row):
+                    if op[0] != "N" and r != alone.get(op):
+                        res.violation(stream="race", case=case[:6000], failing_op=op, impl=r[:300], model="", spec=(alone.get(op) or "")[:300], build="plain (no verif tag)",
+                                      why="in the package built without the verif tag a concurrent call returned something else than the call run alone")
+                        break
+        res.streams["race-processes-plain-build"] = res.streams.get("race-processes-plain-build", 0) + len(pp)
     return drawn
 
 
@@ -2331,11 +2357,59 @@ def json_key(x):
 
 
 # ---------------------------------------------------------------- C07
+def plain_source_probe(res):
+    """The identity of the default randomness source in the PLAIN build of the package (no verif tag): the variable is
+    unexported and the hook that exposes it exists only with the tag, so an in-package test is compiled into a scratch
+    copy of the working tree (outside /repo and /verif, removed afterwards) and run without tags."""
+    import os, re, shutil, subprocess, tempfile
+    body = open(os.path.join(common.COQ, "Gen", "Body.v")).read()
+    m = re.search(r'Definition readfull_src : string := "([A-Za-z_][A-Za-z_0-9]*)"', body)
+    var = m.group(1) if m else "cryptoRander"
+    tmp = tempfile.mkdtemp(prefix="verif-c07-")
+    try:
+        dst = os.path.join(tmp, "repo")
+        shutil.copytree(common.REPO, dst, ignore=shutil.ignore_patterns(".git"))
+        open(os.path.join(dst, "zz_verif_probe_test.go"), "w").write("""package bip39
+
+import (
+	"crypto/rand"
+	"fmt"
+	"testing"
+)
+
+func TestZZVerifPlainProbe(t *testing.T) {
+	same := false
+	func() {
+		defer func() { _ = recover() }()
+		same = interface{}(%s) == interface{}(rand.Reader)
+	}()
+	fmt.Printf("PROBE default-is-crypto-rand=%%v\\n", same)
+}
+""" % var)
+        p = subprocess.run(["go", "test", "-count=1", "-vet=off", "-v", "-run", "TestZZVerifPlainProbe", "."], cwd=dst, env=common.GOENV,
+                           stdout=subprocess.PIPE, stderr=subprocess.STDOUT, text=True, timeout=600)
+        out = p.stdout
+    except Exception as ex:   # noqa
+        out = "probe failed to run: %r" % (ex,)
+    finally:
+        shutil.rmtree(tmp, ignore_errors=True)
+    res.evaluations += 1
+    res.count("W/plain-build-probe")
+    if "PROBE default-is-crypto-rand=true" in out:
+        return
+    if "PROBE default-is-crypto-rand=false" in out:
+        res.violation(stream="W", case="W (plain build, in-package probe)", impl="default-is-crypto-rand=false", model="", spec="default-is-crypto-rand=true", build="plain (no verif tag)",
+                      why="in the package built without the verif tag the default randomness source is not crypto/rand.Reader")
+    else:
+        res.corr_break(stream="W", case="plain-build probe", impl=out[-600:], why="the in-package probe of the default source did not compile or run in the plain build")
+
+
 def C07(tier, seed, st):
     res = Result("C07")
     rng = random.Random(seed)
     q = tier == "quick"
     import math
+    plain_source_probe(res)
     # (1) identity of the pre-swap source, in a fresh process; also under every environment variable the
     #     package reads (none at the pinned commit) and a few common debugging knobs
     envs = [{}]
@@ -2443,6 +2517,52 @@ def C07(tier, seed, st):
     res.sample({"case": lines[0], "impl": impl[0]})
     res.streams.update({"W": len(envs), "N": len(lines), "G": len(dl)})
     return res
+
+
+def plain_build_stream(res, rng, tier):
+    """The package exactly as users build it (harness built WITHOUT the verif tag) against the instrumented build and
+    the specification, on the ops that need no hook: a file under a build constraint that behaves differently with
+    the tag off (or on) shows up here.  Part of every check."""
+    q = tier == "quick"
+    ops = []
+    for lang in LANGS:
+        for el in ENT_LENS:
+            ents = [rng.randbytes(el), (bytes(2) + rng.randbytes(el))[:el]] + gens.zero_checksum_entropies(rng, el, (0,))
+            for e in ents if not q else ents[:2]:
+                ops.append("E %s %s" % (lang, hx(e)))
+        for tag, b in gens.validator_inputs(rng, lang, n=rng.choice(WORD_COUNTS)):
+            ops.append("C %s %s" % (lang, hx(b)))
+        ops.append("L %s" % lang)
+    for u in UNSUPPORTED[:5]:
+        ops += ["L %s" % u, "E %s %s" % (u, hx(rng.randbytes(16))), "C %s %s" % (u, hx(gens.encode("English", rng.randbytes(16))))]
+    pool = [x.encode() for x in gens.nfc_like_pool()]
+    M = gens.encode("English", rng.randbytes(16))
+    for _ in range(8 if q else 60):
+        ops.append("S %s %s" % (hx(rng.choice([M, gens.encode("Japanese", rng.randbytes(16)), rng.choice(pool)])), hx(rng.choice([b"", b"TREZOR", rng.choice(pool)]))))
+    ops += ["E English -", "E English %s" % hx(rng.randbytes(15)), "C English -", "S - -"]
+    plain = common.run_impl_plain(ops)
+    inst = common.run_impl(ops)
+    spec = common.run_model(ops, "spec")
+    for op, a, b, sp in zip(ops, plain, inst, spec):
+        res.evaluations += 1
+        res.count("plain-build/" + op[0])
+        if a != b:
+            res.corr_break(stream="plain-build", case=op, impl=a[:300], model=b[:300],
+                           why="the package built WITHOUT the verif tag (what users build) returns something else than the instrumented build the other streams exercise")
+        why = None
+        if op[0] in "EL" and sp not in ("unspecified", None) and strip_impl_E(a) != sp and not (op[0] == "E" and not a.startswith("ok ") and not sp.startswith("ok ")):
+            why = "the plain build (no verif tag) differs from the specification"
+        elif op[0] == "C":
+            why = judge_op_validator(op, a, sp)
+            if why:
+                why = "plain build (no verif tag): " + why
+        elif op[0] == "S":
+            f = sp.split()
+            if f[5] == "xs=1" and a.replace(" NOT-FRESH", "") != "seed " + pbk(unhx(f[1]), unhx(f[2])):
+                why = "the plain build (no verif tag) derives a seed that differs from the specification"
+        if why:
+            res.violation(stream="plain-build", case=op, impl=a[:400], impl_instrumented=b[:400], model="", spec=(sp or "")[:400], build="plain (no verif tag)", why=why)
+    res.streams["plain-build"] = len(ops)
 
 
 CHECKS = {"C17": C17, "C12": C12, "C04": C04, "C11": C11, "C07": C07, "C08": C08, "C13": C13, "C14": C14, "C01": C01, "C02": C02, "C03": C03, "C05": C05, "C06": C06, "C09": C09, "C10": C10, "C15": C15, "C16": C16}
